@@ -171,11 +171,19 @@ fn main() {
         if thorough {
             w.set_key(Some(K1));
             let (clabel, rec, hidx, elevated) = &callers[1];
-            let start = std::time::Instant::now();
+            // consecutive requests exactly 1, 59, 60, 60 and 120 wall-clock seconds apart (a value kept
+            // from the previous request is only wrong when the clock has moved on by then; gaps of whole
+            // minutes are the case a second-of-minute comparison cannot see)
+            let unix = || std::time::SystemTime::now().duration_since(std::time::UNIX_EPOCH).unwrap().as_secs();
+            let start = unix();
             let mut offsets_done = Vec::new();
-            for off in [0u64, 1, 59, 60, 61, 120] {
-                while start.elapsed().as_secs() < off {
-                    std::thread::sleep(Duration::from_millis(50));
+            let mut aligned = 0u64;
+            for off in [0u64, 1, 60, 120, 180, 300] {
+                while unix() < start + off {
+                    std::thread::sleep(Duration::from_millis(20));
+                }
+                if unix() == start + off {
+                    aligned += 1;
                 }
                 let raw = build_request("GET", "/metadata/instance", &[("Host", b"metadata"), ("Metadata", b"true")], None, None);
                 let s = send_one(&w, next_port(), rec, *hidx, &raw);
@@ -192,10 +200,11 @@ fn main() {
                 }
             }
             res.cov("date_over_time_offsets_s", json!(offsets_done));
+            res.cov("date_over_time_requests_sent_in_the_intended_second", json!(aligned));
         }
         res.cov(
             "rule",
-            format!("full product: copies of each of the three proxy-owned header names in {{0,1,2}}^3 x 3 spellings (alternating between copies) x {{plausible, garbage}} values x {{elevated caller -> WireServer, non-elevated -> IMDS}} x routes {{signed, signature-exempt upload, no key latched}}{}; each request on a fresh attributed connection; non-trivial = at least one client-supplied copy", if thorough { " + requests 0/1/59/60/61/120 s apart for the date header" } else { " (quick: garbage values only with lower-case spelling)" }),
+            format!("full product: copies of each of the three proxy-owned header names in {{0,1,2}}^3 x 3 spellings (alternating between copies) x {{plausible, garbage}} values x {{elevated caller -> WireServer, non-elevated -> IMDS}} x routes {{signed, signature-exempt upload, no key latched}}{}; each request on a fresh attributed connection; non-trivial = at least one client-supplied copy", if thorough { " + requests at wall-clock offsets 0/1/60/120/180/300 s (consecutive gaps 1, 59, 60, 60, 120 s) for the date header" } else { " (quick: garbage values only with lower-case spelling)" }),
         );
     } else {
         // ---------------- C04 end to end ----------------
